@@ -169,7 +169,7 @@ func main() {
 		r.Finish()
 	}
 	if r.Fork(16) {
-		r.Set("rule", "9 specifications (6 valid covering every token kind, 3 invalid) x layouts: every separator choice in every gap, a comment of three kinds in every gap, final newline/blank/comment variants, every subset of optional semicolons (<= 6 positions), and the padding sweep: every gap x every padding amount in the tier's range x 4 fillers (blanks, newlines, one long comment, short comments); non-trivial = a layout different from the canonical one; distinct by text hash")
+		r.Set("rule", "9 specifications (6 valid covering every token kind, 3 invalid) x layouts: every separator choice in every gap, a comment of three kinds in every gap, every generated short comment (block bodies over {*,/,x,blank,LF,CR} up to length 3 quick / 4 thorough, line bodies up to 2) in every gap, final newline/blank/comment variants, every subset of optional semicolons (<= 6 positions), and the padding sweep: every gap x every padding amount in the tier's range x 4 fillers (blanks, newlines, one long comment, short comments); non-trivial = a layout different from the canonical one; distinct by text hash")
 		r.Set("evaluations", r.Get("layouts"))
 		r.Finish()
 	}
@@ -311,6 +311,60 @@ func main() {
 					}
 					return space(i)
 				}, "\n")
+			}
+		}
+		// every short comment: block comments with every body over {*, /, x, blank, LF, CR} up to the tier's length that
+		// the reference scanner reads as one comment, line comments with every body over {*, /, x, ", CR} up to 2
+		bodyLen := 3
+		if !r.Quick() {
+			bodyLen = 4
+		}
+		var generated []string
+		var bodies func(alpha []string, n int, cur string, yield func(string))
+		bodies = func(alpha []string, n int, cur string, yield func(string)) {
+			yield(cur)
+			if n == 0 {
+				return
+			}
+			for _, a := range alpha {
+				bodies(alpha, n-1, cur+a, yield)
+			}
+		}
+		bodies([]string{"*", "/", "x", " ", "\n", "\r"}, bodyLen, "", func(b string) {
+			if !strings.Contains(b, "*/") && !strings.HasPrefix(b, "/") {
+				generated = append(generated, "/*"+b+"*/")
+			}
+		})
+		bodies([]string{"*", "/", "x", "\"", "\r"}, 2, "", func(b string) { generated = append(generated, "//"+b+"\n") })
+		for _, c := range generated {
+			c := c
+			if got, err := ebnfref.TokensOfText("a " + c + " b"); err != nil || len(got) != 2 || got[0].Lexeme != "a" || got[1].Lexeme != "b" {
+				// not one whole comment for the reference scanner (e.g. a CR ends a line comment)
+				r.Add("generated_comments_not_a_comment_for_the_reference", 1)
+				continue
+			}
+			for g := 0; g <= len(toks); g++ {
+				g := g
+				one := func(i int) string {
+					if i == g {
+						if i == 0 {
+							return c
+						}
+						return " " + c
+					}
+					return space(i)
+				}
+				trailer := "\n"
+				if g == len(toks) {
+					one, trailer = space, " "+c
+				}
+				if toks[0].Kind != "?" {
+					if text, _ := ebnfref.Render(toks, one, trailer); !sameTokens(text) {
+						r.Add("generated_comments_not_a_comment_for_the_reference", 1)
+						continue
+					}
+				}
+				try(fmt.Sprintf("gap%d-gencomment:%q", g, c), one, trailer)
 			}
 		}
 		// final newline and friends
